@@ -163,17 +163,19 @@ type LockInv struct {
 }
 
 type ContractSet struct {
-	ChanInvs  map[string]*ChanInv  // pkgpath.<elem type text>
-	LockInvs  map[string]*LockInv  // pkgpath.Type.mutex
-	Guards    map[string]string    // pkgpath.var -> name of the mutex (package-level variable) that guards it
-	TypeInvs  map[string]*TypeInv  // pkgpath.Type
-	Templates map[string]*Contract // pkg.Recv -> default contract of the methods of Recv
-	Pools     map[string]*PoolDirective
-	LangDirs  []*LangDirective
-	Contracts map[string]*Contract
-	Specs     map[string]*SpecFn
-	Lemmas    map[string]*Lemma
-	Errors    []string
+	Closable    map[string]bool      // pkgpath.<elem type text>: channels of this element type get closed - see closableChan
+	NeverClosed map[string]bool      // pkgpath.<elem type text>: no close of such a channel anywhere in the package (sweep)
+	ChanInvs    map[string]*ChanInv  // pkgpath.<elem type text>
+	LockInvs    map[string]*LockInv  // pkgpath.Type.mutex
+	Guards      map[string]string    // pkgpath.var -> name of the mutex (package-level variable) that guards it
+	TypeInvs    map[string]*TypeInv  // pkgpath.Type
+	Templates   map[string]*Contract // pkg.Recv -> default contract of the methods of Recv
+	Pools       map[string]*PoolDirective
+	LangDirs    []*LangDirective
+	Contracts   map[string]*Contract
+	Specs       map[string]*SpecFn
+	Lemmas      map[string]*Lemma
+	Errors      []string
 }
 
 var funcHdr = regexp.MustCompile(`^func\s+(?:\(\s*\*?\s*([A-Za-z_][A-Za-z0-9_]*)\s*\)\s*)?([A-Za-z_][A-Za-z0-9_$]*(?:/[A-Za-z0-9_]+)?)\s*(?:\[([^\]]*)\])?\s*$`)
@@ -188,7 +190,7 @@ var chaninvHdr = regexp.MustCompile(`^chaninv\s+(\*?[A-Za-z_][A-Za-z0-9_.]*)\s*\
 var lockinvHdr = regexp.MustCompile(`^lockinv\s+([A-Za-z_][A-Za-z0-9_]*)\.([A-Za-z_][A-Za-z0-9_]*)\s*\(\s*([A-Za-z_][A-Za-z0-9_]*)\s*\)\s*protects\s+([A-Za-z0-9_, ]+):\s*(.*)$`)
 var poolHdr = regexp.MustCompile(`^pool\s+([A-Za-z_][A-Za-z0-9_]*)\s+(\S+)\s*:\s*(.*)$`)
 
-var clauseKeywords = []string{"package", "chaninv", "lockinv", "init", "guarded", "usemethods", "typeinv", "noinv", "methods", "callsite", "func", "spec", "lemma", "lang", "pool", "interface", "implements", "let", "running", "assume", "requires", "ensures", "modifies", "loop", "use", "assert", "inline", "trusted", "pure"}
+var clauseKeywords = []string{"package", "neverclosed", "closable", "chaninv", "lockinv", "init", "guarded", "usemethods", "typeinv", "noinv", "methods", "callsite", "func", "spec", "lemma", "lang", "pool", "interface", "implements", "let", "running", "assume", "requires", "ensures", "modifies", "loop", "use", "assert", "inline", "trusted", "pure"}
 
 func startsKeyword(s string) string {
 	for _, k := range clauseKeywords {
@@ -526,6 +528,28 @@ func (cs *ContractSet) parse(src, file, pkgPath string) {
 				}
 			}
 			cs.Specs[sf.Name] = sf
+			cur = nil
+		case "neverclosed":
+			f := strings.Fields(rc.text)
+			if len(f) != 2 {
+				cs.errf(file, rc.line, "bad neverclosed directive %q", rc.text)
+				continue
+			}
+			if cs.NeverClosed == nil {
+				cs.NeverClosed = map[string]bool{}
+			}
+			cs.NeverClosed[pkgPath+"."+f[1]] = true
+			cur = nil
+		case "closable":
+			f := strings.Fields(rc.text)
+			if len(f) != 2 {
+				cs.errf(file, rc.line, "bad closable directive %q", rc.text)
+				continue
+			}
+			if cs.Closable == nil {
+				cs.Closable = map[string]bool{}
+			}
+			cs.Closable[pkgPath+"."+f[1]] = true
 			cur = nil
 		case "chaninv":
 			m := chaninvHdr.FindStringSubmatch(rc.text)
